@@ -713,8 +713,61 @@ def path_feasible(p: "Path") -> bool:
     return True
 
 
+ACTIVE_REPO: Optional["Repo"] = None
+_MODULE_OF: Dict[int, ModuleInfo] = {}
+
+
+def set_active_repo(repo: "Repo"):
+    """Lets the path engine expand import aliases of external modules (`F.linear` -> `torch.nn.functional.linear`)."""
+    global ACTIVE_REPO
+    ACTIVE_REPO = repo
+    _MODULE_OF.clear()
+    for mi in repo.modules.values():
+        for n in ast.walk(mi.tree):
+            if isinstance(n, (ast.FunctionDef, ast.AsyncFunctionDef)):
+                _MODULE_OF[id(n)] = mi
+
+
+class _Qualify(ast.NodeTransformer):
+    def __init__(self, repo: "Repo", mi: ModuleInfo, local_names: set):
+        self.repo, self.mi, self.local = repo, mi, local_names
+
+    def visit_Attribute(self, node):
+        ch = attr_chain(node)
+        if ch is not None:
+            head = ch.split(".")[0]
+            if head not in self.local and head in self.mi.imports:
+                target, orig = self.mi.imports[head]
+                if target not in self.repo.modules and not (orig and f"{target}.{orig}" in self.repo.modules):
+                    full = target if orig is None else f"{target}.{orig}"
+                    if full != head and (orig is not None or full.split(".")[0] != head or "." in full):
+                        rest = ch.split(".")[1:]
+                        new = ast.parse(".".join([full] + rest), mode="eval").body
+                        return ast.copy_location(new, node)
+            return node
+        self.generic_visit(node)
+        return node
+
+
+def _qualify_path(p: Path, q: "_Qualify"):
+    def fx(e):
+        return q.visit(e) if isinstance(e, ast.AST) and not isinstance(e, ast.stmt) else e
+
+    p.conds = [(fx(c), t, ln) for c, t, ln in p.conds]
+    p.effects = [tuple(fx(x) for x in ef) for ef in p.effects]
+    if p.end is not None and p.end[1] is not None:
+        p.end = (p.end[0], fx(p.end[1]), p.end[2])
+    p.ctx = [tuple(fx(x) for x in c) for c in p.ctx]
+
+
 def paths_of(fn: ast.FunctionDef, bind: Optional[dict] = None, prune: bool = True) -> List[Path]:
     ps = PathEnum(fn, bind).run()
+    mi = _MODULE_OF.get(id(fn))
+    if ACTIVE_REPO is not None and mi is not None:
+        local = set(params_of(fn)) | _bound_names(fn.body)
+        q = _Qualify(ACTIVE_REPO, mi, local)
+        for p in ps:
+            _qualify_path(p, q)
     return [p for p in ps if path_feasible(p)] if prune else ps
 
 
